@@ -302,10 +302,16 @@ impl Pattern {
      * to verify that there is a match.
      */
     fn alternate_match(pattern: &str, pkg: &str) -> bool {
-        for (i, _) in
-            pattern.match_indices('{').collect::<Vec<_>>().iter().rev()
-        {
-            let (first, rest) = pattern.split_at(*i);
+        /*
+         * Only the right-most opening brace is expanded at this level: its
+         * group cannot contain a nested group, so the first closing brace
+         * after it is its own, and the recursive call expands the remaining
+         * groups.  Pairing any other opening brace with that closing brace
+         * would produce strings that are not part of the expansion, e.g.
+         * "{a{b,c},d}" must not expand to "ad".
+         */
+        for (i, _) in pattern.rmatch_indices('{').take(1) {
+            let (first, rest) = pattern.split_at(i);
             /* This shouldn't fail as new() already verified, but... */
             let Some(n) = rest.find('}') else {
                 return false;
